@@ -28,9 +28,11 @@ func init() {
   VectorPdfRegistry["vector:constrained hmm distribution"]  = new(Chmm)
   VectorPdfRegistry["vector:hierarchical hmm distribution"] = new(Hhmm)
   VectorPdfRegistry["vector:hmm distribution"]              = new(Hmm)
+  VectorPdfRegistry["vector:logistic regression"]           = new(LogisticRegression)
   VectorPdfRegistry["vector:mixture distribution"]          = new(Mixture)
   VectorPdfRegistry["vector:normal distribtion"]            = new(NormalDistribution)
   VectorPdfRegistry["vector:skew normal distribtion"]       = new(SkewNormalDistribution)
+  VectorPdfRegistry["vector:t distribtion"]                 = new(TDistribution)
   VectorPdfRegistry["vector:scalar id"]                     = new(ScalarId)
   VectorPdfRegistry["vector:scalar iid"]                    = new(ScalarIid)
   VectorPdfRegistry["vector:vector id"]                     = new(VectorId)
